@@ -86,6 +86,9 @@ var tab *nameTab
 var nameTok = regexp.MustCompile("@(\\d+)@")
 
 func nm(s string) string {
+	if s == "" {
+		return "[]" // the empty name is the empty byte string (it sorts before every rank)
+	}
 	i, ok := tab.idx[s]
 	if !ok {
 		i = len(tab.names)
@@ -169,6 +172,27 @@ func addUniq(l []string, seen map[string]bool, xs ...string) []string {
 		}
 	}
 	return l
+}
+
+func rowID(rows []row, name string) uint64 {
+	for _, r := range rows {
+		if r.Name == name {
+			return r.ID
+		}
+	}
+	return 0
+}
+
+// putRecord writes a t.rec record into container cont (under an arbitrary parent)
+func putRecord(as istructs.IAppStructs, key uint64, cont string) (err error) {
+	defer func() {
+		if r := recover(); r != nil {
+			err = fmt.Errorf("panic: %v", r)
+		}
+	}()
+	return as.Records().PutJSON(1, map[appdef.FieldName]any{
+		appdef.SystemField_ID: json.Number(fmt.Sprint(key)), appdef.SystemField_QName: pkgName + ".rec",
+		appdef.SystemField_ParentID: json.Number("300000"), appdef.SystemField_Container: cont})
 }
 
 // dupIDs: two stored rows with the same live ID
@@ -305,7 +329,9 @@ func run(sc *scenario) (coq string, tags []string, err error) {
 	probes = addUniq(probes, seen, pkgName+".never")
 
 	var terms []string
-	var keys []uint64
+	var keys, ckeys []uint64
+	sidOf := map[string]uint64{}     // singleton IDs observed for live singletons
+	expectSid := map[string]uint64{} // new name of a completed rename -> singleton ID the old name had
 	var proc *process
 	nextKey := uint64(300001)
 	for _, s := range sc.Steps {
@@ -314,6 +340,10 @@ func run(sc *scenario) (coq string, tags []string, err error) {
 		active, fired = s.Fault, false
 		switch s.Kind {
 		case "rename":
+			before, e0 := readDump(inner)
+			if e0 != nil {
+				return "", nil, e0
+			}
 			inRename, nWrites = true, 0
 			e := rename(st, s.Old, s.New)
 			inRename, active = false, nil
@@ -327,6 +357,13 @@ func run(sc *scenario) (coq string, tags []string, err error) {
 			terms = append(terms, fmt.Sprintf("TRename %s %s %s %d %s", nm(s.Old), nm(s.New), s.Fault.coq(), obs.Code, obs.Dump.coq()))
 			tagset[fmt.Sprintf("rename:code%d", obs.Code)] = true
 			tagset[fmt.Sprintf("rename:writes%d", nWrites)] = true
+			if oldID := rowID(before.Q, s.Old); oldID != 0 && rowID(obs.Dump.Q, s.New) == oldID && rowID(obs.Dump.Q, s.Old) == 0 {
+				// the rename took effect: the new name now carries the IDs of the old one
+				if sid, ok := sidOf[s.Old]; ok {
+					expectSid[s.New] = sid
+					delete(sidOf, s.Old)
+				}
+			}
 			if s.Fault != nil {
 				tagset[fmt.Sprintf("rename-fault:%s%d", s.Fault.Point, s.Fault.K+s.Fault.Reg)] = true
 				if fired {
@@ -419,6 +456,59 @@ func run(sc *scenario) (coq string, tags []string, err error) {
 					}
 					obs.Recs = append(obs.Recs, recObs{"get", key, "", res})
 					recTerms = append(recTerms, fmt.Sprintf("RGet %s %s", num(key), term))
+				}
+				// one record per container of the running schema: the row stores the container ID, the
+				// read maps it back to a name (round trip name -> ID -> name of the containers registry)
+				if proc.hasRec {
+					seenC := map[string]bool{}
+					for _, c := range cn {
+						if seenC[c] {
+							continue
+						}
+						seenC[c] = true
+						key := nextKey
+						nextKey++
+						e5 := putRecord(as, key, c)
+						res := "ok"
+						if e5 != nil {
+							res = "err: " + e5.Error()
+						} else {
+							ckeys = append(ckeys, key)
+						}
+						obs.Recs = append(obs.Recs, recObs{"putc", key, c, res})
+						recTerms = append(recTerms, fmt.Sprintf("RPutC %s %s %s %s", num(key), nm(pkgName+".rec"), nm(c), kit.Bool(e5 == nil)))
+					}
+				}
+				for _, key := range append(append([]uint64{}, ckeys...), 299998) {
+					rec, e6 := as.Records().Get(1, true, istructs.RecordID(key))
+					var res, term string
+					switch {
+					case e6 != nil:
+						res, term = "err: "+e6.Error(), "DErr"
+					case rec.QName() == appdef.NullQName:
+						res, term = "absent", "DAbsent"
+					default:
+						res, term = "container "+rec.Container(), fmt.Sprintf("(DName %s)", nm(rec.Container()))
+					}
+					obs.Recs = append(obs.Recs, recObs{"getc", key, "", res})
+					recTerms = append(recTerms, fmt.Sprintf("RGetC %s %s", num(key), term))
+				}
+				// finding C10-F2: a renamed singleton type is handed a new singleton ID
+				inSn := map[string]bool{}
+				for _, n := range sn {
+					inSn[n] = true
+				}
+				for _, l := range obs.SIDs {
+					if !l.Ok || !inSn[l.Name] {
+						continue
+					}
+					if want, ok := expectSid[l.Name]; ok {
+						if want != l.ID {
+							tagset["C10-F2:renamed-singleton-got-new-id"] = true
+						}
+						delete(expectSid, l.Name)
+					}
+					sidOf[l.Name] = l.ID
 				}
 				// observed collisions among the names of the running schema
 				contLookups := make([]lookup, len(obs.Dump.C))
